@@ -46,7 +46,7 @@ def main():
         res = json.load(open(os.path.join(dest, "meta.json")))
         res["checks"] = {}
         meta = res.get("author", {})
-    env = dict(os.environ, CARGO_NET_OFFLINE="true", CARGO_TARGET_DIR="/tmp/seedchk/suite-target")
+    env = dict(os.environ, CARGO_NET_OFFLINE="true", CARGO_TARGET_DIR=os.environ.get("SEED_SUITE_TARGET", "/tmp/seedchk/suite-target"))
     # --- 0. a private scratch worktree: pinned tree + the author's patch (+ the demonstration)
     # (git stash is shared between worktrees of one repository, so it is never used here)
     src_wt = wt
